@@ -432,7 +432,8 @@ def equal(a, b):
 
 
 def parse(s):
-    return ast.parse(s, mode="eval").body
+    from .idioms import normalize
+    return normalize(ast.parse(s, mode="eval")).body
 
 
 def equal_src(node, src):
